@@ -134,6 +134,17 @@ def jub_family(rnd):
         bs = [rnd.randrange(256) for _ in range(n)]
         E.append(ent("jjscalar.constrain", pubin.S_jjscalar_bytes(n), bs, {"src": "bytes", "n": n}, alt=[[255] * n, [0] * n], k=10,
                      functions=["ecc::native::EccChip::scalar_from_le_bytes", "ecc::native::EccChip::constrain_as_public_input<AssignedScalarOfNativeCurve>"]))
+    # wide scalars (8n bits > one cell): the arity disagreement with the off-circuit encoder is the listed finding of
+    # the (E)/(Z) groups; what is decided here is that the in-circuit exposure itself loses nothing (no chunk wraps
+    # modulo p), extracted at the all-ones bytes (the largest chunk values)
+    for n in (32, 33):
+        E.append(ent("jjscalar.constrain.wide-determination", pubin.S_jjscalar_wide(n), [255] * n, {"src": "bytes", "n": n},
+                     alt=[[rnd.randrange(256) for _ in range(n)], [0] * n], k=11,
+                     what="the cells tied by the exposure of a Jubjub scalar of more bits than one cell holds determine every bit of it (each cell is the integer value of its chunk of bits: no wrap modulo p)",
+                     functions=["ecc::native::EccChip::scalar_from_le_bytes", "ecc::native::EccChip::as_public_input<AssignedScalarOfNativeCurve>", "NativeGadget::assigned_from_le_bits"]))
+    # the same n = 32 shape extracted at seeded random bytes: a wrap must then be FOUND by the solver (forged assignment)
+    E.append(ent("jjscalar.constrain.wide-determination", pubin.S_jjscalar_wide(32), [rnd.randrange(256) for _ in range(31)] + [0x40 + rnd.randrange(0x30)],   # bit 254 set (identifies the width), value below p
+                 {"src": "bytes", "n": 32, "at": "random"}, alt=[[255] * 32], k=11, what=E[-1]["what"], functions=E[-1]["functions"]))
     return E
 
 
